@@ -62,13 +62,16 @@ def imageOf (i : Nat) : Bytes :=
 
 /-- `SBuf::compare(const char *s, caseInsensitive, n)` of the image against the `n` characters of a token: the scan
 covers `min(length(), n)` characters, and only when the image is the *shorter* side is its terminator compared —
-so the result is 0 exactly when the token is a (case-insensitive) prefix of the image -/
+so the result is 0 exactly when the token is a (case-insensitive) prefix of the image.  A tree whose
+HttpRequestMethodXXX also compares the lengths (`Gen.HttpAccessCfg.methodTokenExact`) accepts the whole image only. -/
 def imageCaseCmpToken (image tok : Bytes) : Bool :=
-  decide (tok.length ≤ image.length) && Domain.fold (image.take tok.length) == Domain.fold tok
+  (if Gen.HttpAccessCfg.methodTokenExact then decide (tok.length = image.length) else decide (tok.length ≤ image.length)) &&
+  Domain.fold (image.take tok.length) == Domain.fold tok
 
 /-- the same with `caseSensitive` -/
 def imageCmpToken (image tok : Bytes) : Bool :=
-  decide (tok.length ≤ image.length) && image.take tok.length == tok
+  (if Gen.HttpAccessCfg.methodTokenExact then decide (tok.length = image.length) else decide (tok.length ≤ image.length)) &&
+  image.take tok.length == tok
 
 /-- the `for (++theMethod; theMethod < METHOD_ENUM_END; ++theMethod)` search of `HttpRequestMethodXXX(char const *)`
 (used by ACLMethodData::parse): ids `i .. METHOD_OTHER` in enum order, `image().caseCmp(begin, end-begin)`, and with
@@ -169,6 +172,10 @@ inductive Step (α : Type) where
   | unmodelled
   deriving Repr
 
+def Step.isOk {α : Type} : Step α → Bool
+  | .ok _ => true
+  | _ => false
+
 def findAcl (acls : List Acl) (name : Bytes) : Option Acl := acls.find? (·.name == name)
 
 def replaceAcl (acls : List Acl) (a : Acl) : List Acl :=
@@ -238,20 +245,23 @@ def parseAclLine (c : Conf) (toks : List Bytes) : Step Conf :=
             | .reject r => .reject r
             | .unmodelled => .unmodelled
 
+/-- `const bool negated = (*t == '!'); if (negated) ++t;` -/
+def litOf (t : Bytes) : Bool × Bytes :=
+  match t with
+  | 33 :: r => (true, r)
+  | _ => (false, t)
+
 /-- Acl::InnerNode::lineParse: `[!]aclname ...`, every name must already be defined -/
 def lineParse (acls : List Acl) : List Bytes → Step (List (Bool × Bytes))
   | [] => .ok []
   | t :: ts =>
-    let (neg, name) := match t with
-      | 33 :: r => (true, r)
-      | _ => (false, t)
-    match findAcl acls name with
+    match findAcl acls (litOf t).2 with
     | none => .reject .aclNotFound                            -- "ACL not found" → self_destruct()
     | some a =>
       if a.type = .other then .unmodelled                     -- a built-in ACL of a type outside the scope
       else
         match lineParse acls ts with
-        | .ok l => .ok ((neg, name) :: l)
+        | .ok l => .ok (litOf t :: l)
         | .reject r => .reject r
         | .unmodelled => .unmodelled
 
